@@ -452,7 +452,7 @@ def cases(draw):
         obs = mk(sampled, draw(st.integers(1, 6)))
     return {"setup": setup, "cats": cats, "obs": obs, "source": draw(st.sampled_from(["list", "file_store", "file_nostore"])),
             "seed": draw(st.sampled_from([0, 1, 12345])), "obs_class": cls, "verbose": draw(st.integers(0, 3)) == 0,
-            **({"repeat": draw(st.sampled_from([10, 25]))} if draw(st.integers(0, 11)) == 0 else {}),
+            **({"repeat": draw(st.sampled_from([10, 25, 40]))} if draw(st.integers(0, 11)) == 0 else {}),
             **({"np_divide_raise": True} if draw(st.integers(0, 3)) == 0 else {}),
             **({"filtered_extra": True} if draw(st.integers(0, 2)) == 0 else {}),
             **({"np_seed": True} if draw(st.integers(0, 2)) == 0 else {}),
